@@ -336,7 +336,7 @@ pub fn run(mut chk: Check) -> ! {
         }
         chk.explicit("exhaustive", &inputs, case_exhaustive);
     }
-    let n = chk.scale(4000, 300_000);
+    let n = chk.scale(10_000, 600_000);
     chk.campaign(CampaignCfg::new("decode", n), case_decode);
     chk.finish()
 }
